@@ -87,6 +87,41 @@ def analyse_mode(ctx, repo, noncorr: bool):
     tag = f"C12.{mode}"
     ctx.extra[f"derived_{mode}"] = vstr(res.origin if isinstance(res, ObjV) else res)[:900]
 
+    # ---------------------------------------------------------------- an early return of an EMPTY matrix ("no window fits")
+    if isinstance(res, Term) and res.op == "phi" and len(res.args) == 2:
+        alts = []
+        for a in res.args:
+            if isinstance(a, TupleV) and len(a.items) == 2:
+                g_ = a.items[0]
+                gl = list(g_.items) if isinstance(g_, TupleV) else (list(g_) if isinstance(g_, (tuple, list)) else [g_])
+                alts.append((gl, a.items[1]))
+        empty = [(g[0], v) for g, v in alts if T.is_sparse(v) and len(g) == 1 and isinstance(g[0], CondV) and g[0].kind == "cmp" and
+                 not (isinstance(v.origin, Term) and v.origin.op == "spdot")]
+        full = [(g, v) for g, v in alts if T.is_sparse(v) and isinstance(v.origin, Term) and v.origin.op == "spdot" and not g]
+        if len(empty) == 1 and len(full) == 1 and empty[0][1] is not full[0][1]:
+            op_, a_, b_ = empty[0][0].args
+            d_ = a_ - b_
+            ctx.instance("LIN")
+            cex = None
+            if set(d_.atoms()) <= {("sym", "L"), ("sym", "tau")}:
+                for Lv in range(0, 8):
+                    for tv in range(1, 8):
+                        x_ = d_.subs({("sym", "L"): Poly.const(Lv), ("sym", "tau"): Poly.const(tv)})
+                        if not x_.is_const():
+                            continue
+                        x_ = x_.as_const()
+                        holds = {"<": x_ < 0, "<=": x_ <= 0, ">": x_ > 0, ">=": x_ >= 0, "==": x_ == 0, "!=": x_ != 0}[op_]
+                        if holds and Lv - tv >= 1 and cex is None:
+                            cex = (Lv, tv)
+                if cex is not None:
+                    ctx.violate("LIN", f"{tag}.early_empty", "the `no window fits` early return also fires when a window does fit: a trajectory of "
+                                "L frames has max(L - tau, 0) windows (x_k, x_{k+tau}), so the empty matrix may be returned only for L <= tau", where,
+                                vstr(empty[0][0])[:100], witness=f"L = {cex[0]}, tau = {cex[1]}: {cex[0] - cex[1]} window(s), but the condition "
+                                f"{vstr(empty[0][0])} holds and an all-zero matrix is returned")
+                else:
+                    ctx.ok("LIN", f"{tag}.early_empty", "the early return of an empty matrix is taken only when no window fits (L <= tau)", where,
+                           vstr(empty[0][0])[:100])
+                res = full[0][1]
     # ---------------------------------------------------------------- normalisation term
     if not (T.is_sparse(res) and isinstance(res.origin, Term)):
         ctx.inconclusive("KERNEL", f"{tag}.result", "return value not derived", where, witness=contains_top(res) or vstr(res)[:200])
